@@ -42,8 +42,11 @@ impl Sm {
 }
 
 impl RngCore for Sm {
+    /// neither half of the word: an adapter that derives 32-bit draws from one half of a 64-bit draw (or 64-bit
+    /// draws from two 32-bit ones) does not reproduce this generator
     fn next_u32(&mut self) -> u32 {
-        (self.next() >> 32) as u32
+        let w = self.next();
+        ((w >> 32) ^ w) as u32
     }
     fn next_u64(&mut self) -> u64 {
         self.next()
